@@ -31,7 +31,9 @@ def strip_comments(src):
             i = n if j < 0 else j
         elif src.startswith("/*", i):
             j = src.find("*/", i + 2)
-            i = n if j < 0 else j + 2
+            end = n if j < 0 else j + 2
+            out.append("\n" * src.count("\n", i, end))   # keep line numbers intact
+            i = end
         elif c == '"':
             j = i + 1
             while j < n and src[j] != '"':
@@ -412,8 +414,9 @@ def extract_orderings():
             recv = re.sub(r"^.*?((?:\w+\.)*\w+(?:\[[^\]]*\])?)$", r"\1", recv)
             k = (rel, fn)
             counts[k] = counts.get(k, 0) + 1
+            line = src.count("\n", 0, m.start() + 1) + 1
             sites.append({"file": rel, "fn": fn, "ordinal": counts[k], "method": meth,
-                          "recv": recv, "orderings": ords})
+                          "recv": recv, "orderings": ords, "line": line})
     if not sites:
         raise ExtractError("no atomic call sites found")
     return sites
@@ -527,6 +530,9 @@ def main():
     write_if_changed(os.path.join(OUT, "Orderings.lean"), "\n".join(lines))
     with open(SITES, "w") as f:
         json.dump({"sites": sites, "platform": plat}, f, indent=1, sort_keys=True)
+    with open(SITES.replace(".json", ".txt"), "w") as f:
+        for st in sites:
+            f.write("%s %d %s#%d\n" % (st["file"], st["line"], st["fn"], st["ordinal"]))
     print("extract: ok (%d platform consts, %d DETAILS rows, %d cause rows, %d atomic sites)" %
           (len(plat), len(rows), len(crows), len(sites)))
 
